@@ -424,7 +424,8 @@ impl<I: ManifestFormat> ManifestFormat for YamlStreamFormat<I> {
 				|| self.inner.manifest_buf(v, out),
 			)?;
 		}
-		if self.c_document_end {
+		// An empty stream has no document to end
+		if self.c_document_end && !arr.is_empty() {
 			out.push('\n');
 			out.push_str("...");
 		}
